@@ -62,6 +62,7 @@ def check_collection(boxes, queries, sequence=None):
     """boxes: list of (id, box).  Returns ([(clause, msg, query)], depth)."""
     rtree = _lib()
     desc = f"Index({boxes!r})"
+    core.rejected(rtree.Index, [(0, (0, 0, 1))])                              # a box with three numbers
     try:
         with core.watchdog(10.0):
             decoy = rtree.Index(list(DECOY))
